@@ -118,10 +118,10 @@ theorem requests_complete_current (norm : α → α) (ds : List (ClassDecl α)) 
 Names are numbers and `norm = (· % 10)`: `11` is "`1` in another letter case". -/
 
 /-- `class a (A)` with one method -/
-def selfDs : List (ClassDecl Nat) := [⟨1, some 11, [.plain 5], [], false, [5]⟩]
+def selfDs : List (ClassDecl Nat) := [⟨1, some 11, [.plain 5], [], false, [5], true⟩]
 
 /-- `class A (B)` and `class B (A)`, one method each -/
-def mutualDs : List (ClassDecl Nat) := [⟨1, some 2, [.plain 5], [], false, [5]⟩, ⟨2, some 1, [.plain 6], [], false, [6]⟩]
+def mutualDs : List (ClassDecl Nat) := [⟨1, some 2, [.plain 5], [], false, [5], true⟩, ⟨2, some 1, [.plain 6], [], false, [6], true⟩]
 
 /-- **`class aCyc (ACYC)`**: the case-sensitive guard lets the class link its own table as parent;
     the diagnostics request then dead-locks in its first lookup -/
